@@ -600,7 +600,7 @@ __find_zrng(const struct zif_s z[static 1U], stamp_t t, int min, int max)
 		/* either no transitions at all, or T is before the first one */
 		res.next = z->ntr ? zif_trans(z, 0) : STAMP_MAX;
 	} else {
-		res.trno = (uint8_t)trno;
+		res.trno = trno;
 		if (LIKELY(trno + 1U < z->ntr)) {
 			res.next = zif_trans(z, trno + 1U);
 		} else {
